@@ -271,6 +271,7 @@ def run(ctx):
 
     swapped_arguments(ctx, "R12-d")
     modified_lines_one_write_per_line(ctx, "R12-e")
+    diff_sees_whole_texts(ctx, "R12-f")
 
 
 def name_root(fn, op, depth=0):
@@ -437,3 +438,29 @@ def modified_lines_one_write_per_line(ctx, rid):
                                 % sorted({short(cc.name).rsplit("::", 1)[-1] for cc in calls if not is_len(cc)})[:4], [c.loc()])
     r.floor(rid, n_sinks, 2, "formatter writes in ModifiedLines::fmt")
     r.floor(rid, n_line, 1, "writes of line text in ModifiedLines::fmt")
+
+
+def diff_sees_whole_texts(ctx, rid):
+    """R12-f: the line numbers of a report are positions in the texts that were compared"""
+    from common import expr_key
+    p, r = ctx.p, ctx.r
+    r.rule(rid, "rustfmt_diff::make_diff hands its own two parameters to diff::lines — not a slice, a suffix or a transformed copy: "
+                "the Mismatch line numbers are counted from the first item diff::lines yields and are reported as absolute line "
+                "numbers, and diff::lines decides the final-newline item from the last byte of exactly the texts it is given")
+    f = p.named("make_diff", within="rustfmt_diff")
+    if f is None:
+        r.undecidable(rid, "rustfmt_diff::make_diff not found")
+        return
+    n = 0
+    for c in f.calls():
+        if c.name != "diff::lines" and not c.name.endswith("diff::lines"):
+            continue
+        n += 1
+        keys = [expr_key(f, a) for a in c.args]
+        ok = keys == ["arg1", "arg2"]
+        r.instance(rid, "make_diff: diff::lines(%s)" % ", ".join(short(k)[:30] for k in keys), "ok" if ok else "violation", c.loc())
+        if not ok:
+            r.violation(rid, "make_diff does not diff the texts it was given",
+                        "diff::lines receives %s instead of make_diff's own (expected, actual): line numbers and the end-of-file "
+                        "newline item no longer describe the two files" % [short(k)[:60] for k in keys], [c.loc()])
+    r.floor(rid, n, 1, "diff::lines calls in make_diff")
